@@ -181,7 +181,9 @@ class AssertTracer:
             self.executions.append(key)
         elif not self.fired and line == self.target[1] and n == self.target[2]:
             self.fired = True
-            raise AssertionError("simkit: injected assertion failure")
+            # the message is what assertion messages of the tree look like at their worst: they embed reprs of ops and
+            # parameters, i.e. line breaks, quotes of every kind and comment delimiters
+            raise AssertionError("simkit: injected assertion failure\nsecond line: 'q' \"d\" \'\'\' */ /* // \\ {x} %s\r\n\u2028end")
         return None
 
     def run(self, fn, *a, **kw):
